@@ -836,6 +836,91 @@ Proof.
       destruct Hco as [Hco|[Hco|[Hco|Hco]]]; rewrite Hco; reflexivity.
 Qed.
 
+(* ---- Rename of a DIRECTORY to a name that does not exist ---------------------------------------------------------- *)
+Definition source_is_dir (s : fsys) (sv : sview) (cs : list str) : Prop :=
+  forall par kind name n, klookup s sv false false (abs_path cs) = WNode par kind name n -> node_is_dir (f_heap s) n = true.
+
+(* neither side takes the destination to lie inside the source (the implementation compares path strings, the
+   kernel walks up from the destination directory: the agreement of the two tests is not part of this theorem) *)
+Definition not_into_itself (s : fsys) (sv : sview) (co cn : list str) : Prop :=
+  forall opar okind oname oc npar nname md,
+    klookup s sv false false (abs_path co) = WNode opar okind oname oc ->
+    klookup s sv false false (abs_path cn) = WNeg npar nname md ->
+    is_ancestor (S (length (f_heap s))) (f_heap s) (v_root (sv_view sv)) oc npar = false
+    /\ is_prefix (pi_path (sr_pi (search_node s (sv_view sv) (abs_path co) SlLstat)) ++ [SLASH])
+                 (pi_path (sr_pi (search_node s (sv_view sv) (abs_path cn) SlLstat))) = false.
+
+(* moving a directory to another directory needs write permission on it (listed: C03-RENAME-DIR-WRITE) *)
+Definition moved_dir_writable (s : fsys) (sv : sview) (co cn : list str) : Prop :=
+  forall opar okind oname oc npar nname md,
+    klookup s sv false false (abs_path co) = WNode opar okind oname oc ->
+    klookup s sv false false (abs_path cn) = WNeg npar nname md ->
+    opar = npar \/ kperm (f_heap s) oc 2 (v_user (sv_view sv)) = true.
+
+Theorem dstep_rename_dir_new (s : fsys) (sv : sview) (wo : list str) (clo : str) (w : list str) (cl : str) :
+  dac_hyps s sv -> path_ok s sv SlLstat (wo ++ [clo]) -> path_ok s sv SlLstat (w ++ [cl]) ->
+  source_is_dir s sv (wo ++ [clo]) -> dest_absent s sv (w ++ [cl]) -> rename_one_error s sv (wo ++ [clo]) (w ++ [cl]) ->
+  no_sticky_refusal s sv (wo ++ [clo]) -> not_into_itself s sv (wo ++ [clo]) (w ++ [cl]) ->
+  moved_dir_writable s sv (wo ++ [clo]) (w ++ [cl]) ->
+  let o := abs_path (wo ++ [clo]) in
+  let p := abs_path (w ++ [cl]) in
+  (fst (rename s (sv_view sv) o p), proj_res Linux (snd (rename s (sv_view sv) o p))) = go_rename s sv o p.
+Proof.
+  intros H Hpo Hp Hnd Hab Hone Hst Hni Hmw o p.
+  pose proof (dresolve s sv SlLstat (wo ++ [clo]) H Hpo) as Ro. pose proof (dresolve s sv SlLstat (w ++ [cl]) H Hp) as R.
+  destruct Hpo as (Hgo & Hko1 & _ & Hnfo). destruct Hp as (Hg & Hk1 & _ & Hnf).
+  change (follow_of SlLstat) with false in Ro, R, Hk1, Hko1. change (precise_of SlLstat) with true in Ro, R.
+  destruct (klookup_pm s sv false wo clo Hgo Hko1) as (Hokn & Hokg & Hopm).
+  destruct (klookup_pm s sv false w cl Hg Hk1) as (Hkn & Hkg & Hpm).
+  pose proof (klookup_final s sv false (wo ++ [clo]) Hgo) as Hofin.
+  pose proof (klookup_final s sv false (w ++ [cl]) Hg) as Hfin.
+  unfold o, p, rename, go_rename, k_stat, k_rename, win. rewrite (dh_os _ _ H). cbn [ostype_eqb]. rewrite Hopm, Hpm.
+  set (ro := search_node s (sv_view sv) (abs_path (wo ++ [clo])) SlLstat) in *.
+  set (rn := search_node s (sv_view sv) (abs_path (w ++ [cl])) SlLstat) in *.
+  unfold source_is_dir in Hnd. unfold dest_absent in Hab. unfold rename_one_error in Hone. unfold no_sticky_refusal in Hst.
+  unfold not_into_itself in Hni. unfold moved_dir_writable in Hmw.
+  destruct (klookup s sv false false (abs_path (w ++ [cl]))) as [par kind name n|par name md| |e] eqn:HK; cbn [walk_rel] in R;
+    [exfalso; exact (Hab _ _ _ _ eq_refl)| |destruct R|].
+  - pose proof (Hkg _ _ _ eq_refl) as ->. destruct Hfin as (F1 & F2 & F3). destruct R as (R1 & R2 & R3 & R4).
+    destruct (at_name_views _ _ _ _ _ _ (R4 eq_refl)) as (V1 & V2 & dn & V3 & V4 & V5).
+    destruct (klookup s sv false false (abs_path (wo ++ [clo]))) as [op okind oname oc|op oname omd| |e] eqn:HKo; cbn [walk_rel] in Ro.
+    + destruct (Hokn _ _ _ _ eq_refl) as (-> & ->). destruct Hofin as (G1 & G2 & G3).
+      destruct Ro as (O1 & O2 & O3 & _ & _ & O4). destruct (O4 eq_refl) as (O5 & O6).
+      destruct (at_name_views _ _ _ _ _ _ (O6 eq_refl)) as (W1 & W2 & do & W3 & W4 & W5).
+      specialize (Hnd _ _ _ _ eq_refl). specialize (Hst _ _ _ _ eq_refl).
+      destruct (Hni _ _ _ _ _ _ _ eq_refl eq_refl) as (N1 & N2). specialize (Hmw _ _ _ _ _ _ _ eq_refl eq_refl).
+      assert (Hne : oc <> op).
+      { intros ->. apply (ww_acyclic _ (dh_wf _ _ H) op). exists op, clo. split; [constructor|]. apply alookup_in. exact G1. }
+      destruct (node_is_dir_get _ _ Hnd) as (cho & mo & Hgoc).
+      fold ro rn in N2. change (sepc Linux) with SLASH.
+      rewrite O1, R1, V2, O5, O2, R3, R2, V1, W1, N2. cbn [is_file_exists is_not_exist negb andb orb].
+      rewrite (perm_on_write_searchable _ _ _ G3), (perm_on_write_searchable _ _ _ F3).
+      rewrite G1, F1, Hnd, N1, (may_delete_nosticky _ _ _ _ _ Hst), Hnd, Hgoc. cbn [negb andb orb].
+      replace (Nat.eqb oc op) with false by (symmetry; apply Nat.eqb_neq; exact Hne). cbn [orb].
+      destruct (kperm (f_heap s) op 3 (v_user (sv_view sv))) eqn:Hpo; cbn [negb]; [|reflexivity].
+      destruct (Nat.eqb_spec par op) as [->|Hnp]; cbn [negb andb].
+      * rewrite Hpo, Nat.eqb_refl. cbn [negb andb fst snd proj_res].
+        rewrite (move_comm _ _ _ _ _ _ G2 F2) by (intros _ ->; congruence). reflexivity.
+      * destruct (kperm (f_heap s) par 3 (v_user (sv_view sv))); cbn [negb]; [|reflexivity].
+        destruct Hmw as [->|Hw]; [congruence|]. rewrite Hw.
+        replace (Nat.eqb op par) with false by (symmetry; apply Nat.eqb_neq; congruence).
+        cbn [negb andb fst snd proj_res]. rewrite (move_comm _ _ _ _ _ _ G2 F2) by (intros E; congruence). reflexivity.
+    + destruct Ro as (O1 & _). pose proof (Hokg _ _ _ eq_refl) as ->. destruct Hofin as (G1 & _).
+      rewrite O1, G1. reflexivity.
+    + destruct Ro.
+    + destruct Ro as (O1 & _). destruct (werr_cases _ _ O1 Hnfo) as (Hc & ->).
+      destruct Hc as [Hc|[Hc|[Hc|Hc]]]; rewrite Hc; reflexivity.
+  - destruct R as (R1 & R2). destruct (werr_cases _ _ R1 Hnf) as (Hc & ->).
+    destruct (klookup s sv false false (abs_path (wo ++ [clo]))) as [op okind oname oc|op oname omd| |eo] eqn:HKo; cbn [walk_rel] in Ro.
+    + destruct Ro as (O1 & _). rewrite O1. cbn [is_file_exists negb].
+      destruct Hc as [Hc|[Hc|[Hc|Hc]]]; rewrite Hc in *; try reflexivity.
+      rewrite (R2 eq_refl eq_refl). reflexivity.
+    + exfalso. exact (Hone _ _ _ _ eq_refl eq_refl).
+    + destruct Ro.
+    + destruct Ro as (O1 & _). destruct (werr_cases _ _ O1 Hnfo) as (Hco & ->).
+      destruct Hco as [Hco|[Hco|[Hco|Hco]]]; rewrite Hco; reflexivity.
+Qed.
+
 (* ---- the step theorem at the level of worlds, any user ----------------------------------------------------------- *)
 Definition open_covered (s : fsys) (sv : sview) (p : str) (flag : N) : Prop :=
   (N.land flag 3 < 3)%N /\
@@ -874,8 +959,11 @@ Definition dcovered (phl : bool) (vi : nat) (sw : sworld) (c : call) : Prop :=
   | CRename vi' o p =>
       vi' = vi /\ exists wo clo w cl, o = abs_path (wo ++ [clo]) /\ p = abs_path (w ++ [cl])
         /\ path_ok s sv SlLstat (wo ++ [clo]) /\ path_ok s sv SlLstat (w ++ [cl])
-        /\ source_not_dir s sv (wo ++ [clo]) /\ dest_absent s sv (w ++ [cl])
+        /\ dest_absent s sv (w ++ [cl])
         /\ rename_one_error s sv (wo ++ [clo]) (w ++ [cl]) /\ no_sticky_refusal s sv (wo ++ [clo])
+        /\ (source_not_dir s sv (wo ++ [clo])
+            \/ (source_is_dir s sv (wo ++ [clo]) /\ not_into_itself s sv (wo ++ [clo]) (w ++ [cl])
+                /\ moved_dir_writable s sv (wo ++ [clo]) (w ++ [cl])))
   | COpenFile vi' p flag _ => vi' = vi /\ open_covered s sv p flag
   | _ => False
   end.
@@ -969,13 +1057,15 @@ Proof.
     + reflexivity.
     + rewrite <- Hfs, Ep. exact (dstep_remove (sw_fs sw) (sw_sv sw) ww cl H Hp Hss Hst).
   - (* Rename *)
-    destruct Hc as (-> & wo & clo & ww & cl & Eo & Ep & Hpo & Hp & Hnd & Hab & Hone & Hst).
+    destruct Hc as (-> & wo & clo & ww & cl & Eo & Ep & Hpo & Hp & Hab & Hone & Hst & Hkind).
     apply (dworld_of_lift phl w vi sw Ha _ (rename (w_fs w) (sv_view (sw_sv sw)) o n) (go_rename (sw_fs sw) (sw_sv sw) o n)).
     + assert (E : wstep w (CRename vi o n) = lift w (rename (w_fs w) (sv_view (sw_sv sw)) o n))
         by (unfold wstep, on_view; rewrite Hv; reflexivity).
       apply (impl_lift w _ _ E); [left; discriminate|exact I].
     + reflexivity.
-    + rewrite <- Hfs, Eo, Ep. exact (dstep_rename_file_new (sw_fs sw) (sw_sv sw) wo clo ww cl H Hpo Hp Hnd Hab Hone Hst).
+    + rewrite <- Hfs, Eo, Ep. destruct Hkind as [Hnd|(Hd & Hni & Hmw)].
+      * exact (dstep_rename_file_new (sw_fs sw) (sw_sv sw) wo clo ww cl H Hpo Hp Hnd Hab Hone Hst).
+      * exact (dstep_rename_dir_new (sw_fs sw) (sw_sv sw) wo clo ww cl H Hpo Hp Hd Hab Hone Hst Hni Hmw).
   - (* Link *)
     destruct Hc as (-> & co & ww & cl & Eo & Ep & Hpo & Hp & Hns & Hph).
     apply (dworld_of_lift phl w vi sw Ha _ (link (w_fs w) (sv_view (sw_sv sw)) o n) (k_link phl (sw_fs sw) (sw_sv sw) o n)).
